@@ -97,15 +97,15 @@ def oracle(case):
         elif "e" in trace:
             if stop is not None:
                 bad = "endpoint ran although before hook %d stopped the request" % stop
-            elif c["route"] not in ("hit", "default"):
+            elif c["route"] not in W.ENDPOINT_ROUTES:
                 bad = "an endpoint ran for request kind %s" % c["route"]
             elif trace.count("e") != 1:
                 bad = "endpoint ran %d times" % trace.count("e")
             elif bev and trace.index("e") < trace.index(bev[-1]):
                 bad = "endpoint ran before the before hooks finished"
-        elif stop is None and c["route"] in ("hit", "default"):
+        elif stop is None and c["route"] in W.ENDPOINT_ROUTES:
             bad = "endpoint did not run although every before hook passed"
-        if not bad and c["route"] in ("hit", "default") and seen and not all(s[1] for s in seen):
+        if not bad and c["route"] in W.ENDPOINT_ROUTES and seen and not all(s[1] for s in seen):
             bad = "a before hook could not see the chosen endpoint on the request"
     if not bad and outcome[0] != "silent" or (not bad and aev):
         silent_pre = outcome[0] == "silent" and not aev
